@@ -1,6 +1,7 @@
 package props
 
 import (
+	"errors"
 	"bytes"
 	"crypto/ed25519"
 	"crypto/sha256"
@@ -32,6 +33,29 @@ type c05Case struct {
 	Recs      []hx.RecSpec `json:"recs"`
 	Segs      []int        `json:"segs"`
 	Armor     bool         `json:"armor"`
+	// FailedBefore > 0: just before, in the same goroutine, another encryption to the same recipients was attempted on a
+	// destination that takes FailedBefore-1 bytes and then fails (Short: by a short write with an error)
+	FailedBefore int  `json:"failedBefore,omitempty"`
+	Short        bool `json:"short,omitempty"`
+}
+
+// c05LimitW takes n bytes and fails from then on.
+type c05LimitW struct {
+	n     int
+	short bool
+}
+
+func (w *c05LimitW) Write(p []byte) (int, error) {
+	if len(p) <= w.n {
+		w.n -= len(p)
+		return len(p), nil
+	}
+	k := 0
+	if w.short {
+		k = w.n
+	}
+	w.n = 0
+	return k, errors.New("destination failed")
 }
 
 // refFromTape rebuilds the file the specification prescribes for the values
@@ -90,6 +114,12 @@ func c05CheckEncrypt(c c05Case, st *stats.Run) error {
 	for _, r := range c.Recs {
 		recs = append(recs, p.Recipient(r))
 	}
+	if c.FailedBefore > 0 {
+		if w, e := age.Encrypt(&c05LimitW{n: c.FailedBefore - 1, short: c.Short}, recs...); e == nil {
+			w.Write(hx.PRG(3, 100))
+			w.Close()
+		}
+	}
 	tape := &hx.Tape{Seed: c.TapeSeed}
 	var file []byte
 	var err error
@@ -104,7 +134,7 @@ func c05CheckEncrypt(c c05Case, st *stats.Run) error {
 		}
 	}
 	nontrivial := nonX || len(c.Recs) >= 2 || chunksOf(c.PlainLen) >= 2 || c.Armor
-	st.Case(nontrivial, stats.HashJSON(c), "enc:mix="+hx.KindsOf(c.Recs), "enc:"+chunkLabel(c.PlainLen), fmt.Sprintf("enc:armor=%v", c.Armor), "enc:"+lenClass(c.PlainLen))
+	st.Case(nontrivial, stats.HashJSON(c), "enc:mix="+hx.KindsOf(c.Recs), "enc:"+chunkLabel(c.PlainLen), fmt.Sprintf("enc:armor=%v", c.Armor), "enc:"+lenClass(c.PlainLen), fmt.Sprintf("enc:after-failed-encryption=%v", c.FailedBefore > 0))
 	if nontrivial {
 		st.Sample("encrypt/"+hx.KindsOf(c.Recs), c)
 	}
@@ -580,7 +610,24 @@ func TestC05(t *testing.T) {
 
 	pbt.Rapid(s, "encrypt-differential", s.N(2000, 15000), func(t *rapid.T) c05Case {
 		l := genPlainLen(t, 3)
-		return c05Case{TapeSeed: rapid.Uint64().Draw(t, "tape"), PlainLen: l, PlainSeed: rapid.Uint64Range(0, 100).Draw(t, "ps"), Recs: c05GenRecs(t), Segs: genSegs(t, l), Armor: rapid.Bool().Draw(t, "armor")}
+		c := c05Case{TapeSeed: rapid.Uint64().Draw(t, "tape"), PlainLen: l, PlainSeed: rapid.Uint64Range(0, 100).Draw(t, "ps"), Recs: c05GenRecs(t), Segs: genSegs(t, l), Armor: rapid.Bool().Draw(t, "armor")}
+		if rapid.IntRange(0, 5).Draw(t, "failedBefore") == 0 {
+			c.FailedBefore, c.Short = rapid.IntRange(1, 400).Draw(t, "failAt"), rapid.Bool().Draw(t, "short")
+		}
+		return c
+	}, enc)
+	// an encryption whose destination failed at every offset of its header, then a good one
+	pbt.Each(s, "encrypt-differential", func(yield func(c05Case)) {
+		n := 0
+		for at := 1; at <= 230; at++ {
+			for _, short := range []bool{false, true} {
+				if s.Mine(n) {
+					yield(c05Case{TapeSeed: uint64(at), PlainLen: 50, PlainSeed: 3, Recs: []hx.RecSpec{{Kind: "x25519", Idx: at % 3}}, FailedBefore: at, Short: short})
+				}
+				n++
+			}
+		}
+		s.St.Exhaust("a good encryption right after one whose destination failed at each of the first 230 byte offsets (error or short write)", int64(n))
 	}, enc)
 	pbt.Each(s, "decrypt-reference-written", func(yield func(c05DecCase)) {
 		if s.Shard == 0 {
